@@ -661,6 +661,8 @@ class RTCSctpTransport(AsyncIOEventEmitter):
         self._fast_recovery_exit = None
         self._fast_recovery_transmit = False
         self._forward_tsn_chunk: Optional[ForwardTsnChunk] = None
+        self._forward_tsn_streams: dict[int, int] = {}
+        self._forward_tsn_unacked: Optional[ForwardTsnChunk] = None
         self._flight_size = 0
         self._local_tsn = random32()
         self._last_sacked_tsn = tsn_minus_one(self._local_tsn)
@@ -1618,20 +1620,30 @@ class RTCSctpTransport(AsyncIOEventEmitter):
         if uint32_gt(self._last_sacked_tsn, self._advanced_peer_ack_tsn):
             self._advanced_peer_ack_tsn = self._last_sacked_tsn
 
+        if self._forward_tsn_unacked is not None and uint32_gte(
+            self._last_sacked_tsn, self._forward_tsn_unacked.cumulative_tsn
+        ):
+            # the peer has caught up with the last FORWARD TSN
+            self._forward_tsn_unacked = None
+            self._forward_tsn_streams = {}
+
         done = 0
-        streams = {}
         while self._sent_queue and self._sent_queue[0]._abandoned:
             chunk = self._sent_queue.popleft()
             self._advanced_peer_ack_tsn = chunk.tsn
             done += 1
             if not (chunk.flags & SCTP_DATA_UNORDERED):
-                streams[chunk.stream_id] = chunk.stream_seq
+                self._forward_tsn_streams[chunk.stream_id] = chunk.stream_seq
 
         if done:
             # build FORWARD TSN
             self._forward_tsn_chunk = ForwardTsnChunk()
             self._forward_tsn_chunk.cumulative_tsn = self._advanced_peer_ack_tsn
-            self._forward_tsn_chunk.streams = list(streams.items())
+            self._forward_tsn_chunk.streams = list(self._forward_tsn_streams.items())
+            self._forward_tsn_unacked = self._forward_tsn_chunk
+        elif self._forward_tsn_unacked is not None:
+            # the FORWARD TSN may have been lost, send it again (RFC 3758 3.5)
+            self._forward_tsn_chunk = self._forward_tsn_unacked
 
     def _update_rto(self, R: float) -> None:
         """
